@@ -268,6 +268,13 @@ def strictErr (r : R) : List Err :=
   | .error x => [x]
   | .ok _ => []
 
+/-- the error that the lazy evaluation itself ends with (it may lie behind an error that the
+strict evaluation meets first and the lazy one avoids) -/
+def lzErr (l : LSeq) : List Err :=
+  match l.err with
+  | some x => [x]
+  | none => []
+
 /-- the error of a check of one operand alone (an implementation may perform it before it
 evaluates the other operands, and on a lazily delivered operand as soon as two items have
 arrived: "more than one item") -/
@@ -312,56 +319,56 @@ a reachable focus / binding -/
 def codes (sm : Summation) : Expr → Ctx → List Err
   | .lit _, _ => []
   | .empty, _ => []
-  | .var x, c => strictErr (sem sm (.var x) c)
+  | .var x, c => strictErr (sem sm (.var x) c) ++ lzErr (lz sm (.var x) c)
   | .dot, c => strictErr (sem sm .dot c)
   | .position, _ => []
   | .last, _ => []
-  | .comma a b, c => strictErr (sem sm (.comma a b) c) ++ codes sm a c ++ codes sm b c
+  | .comma a b, c => strictErr (sem sm (.comma a b) c) ++ lzErr (lz sm (.comma a b) c) ++ codes sm a c ++ codes sm b c
   | .range a b, c =>
-    strictErr (sem sm (.range a b) c) ++ codes sm a c ++ codes sm b c ++
+    strictErr (sem sm (.range a b) c) ++ lzErr (lz sm (.range a b) c) ++ codes sm a c ++ codes sm b c ++
       checkErr (lz sm a c) atMostInt ++ checkErr (lz sm b c) atMostInt
   | .filter e p, c =>
-    strictErr (sem sm (.filter e p) c) ++ codes sm e c ++
+    strictErr (sem sm (.filter e p) c) ++ lzErr (lz sm (.filter e p) c) ++ codes sm e c ++
       ((fociOf c (lz sm e c)).map fun c' => codes sm p c' ++ checkErr (lz sm p c') (predicateTruth c'.pos)).flatten
   | .map a b, c =>
-    strictErr (sem sm (.map a b) c) ++ codes sm a c ++
+    strictErr (sem sm (.map a b) c) ++ lzErr (lz sm (.map a b) c) ++ codes sm a c ++
       ((fociOf c (lz sm a c)).map fun c' => codes sm b c').flatten
-  | .forE bs r, c => strictErr (sem sm (.forE bs r) c) ++ codesBinds sm bs c (fun c' => codes sm r c')
+  | .forE bs r, c => strictErr (sem sm (.forE bs r) c) ++ lzErr (lz sm (.forE bs r) c) ++ codesBinds sm bs c (fun c' => codes sm r c')
   | .someE bs t, c =>
-    strictErr (sem sm (.someE bs t) c) ++
+    strictErr (sem sm (.someE bs t) c) ++ lzErr (lz sm (.someE bs t) c) ++
       codesBinds sm bs c (fun c' => codes sm t c' ++ strictErr ((sem sm t c').bind fun v => (ebv v).map fun _ => []) ++
         checkErr (lz sm t c') ebv)
   | .everyE bs t, c =>
-    strictErr (sem sm (.everyE bs t) c) ++
+    strictErr (sem sm (.everyE bs t) c) ++ lzErr (lz sm (.everyE bs t) c) ++
       codesBinds sm bs c (fun c' => codes sm t c' ++ strictErr ((sem sm t c').bind fun v => (ebv v).map fun _ => []) ++
         checkErr (lz sm t c') ebv)
-  | .fn1 f a, c => strictErr (sem sm (.fn1 f a) c) ++ codes sm a c ++ checkErr (lz sm a c) (argCheck1 f)
+  | .fn1 f a, c => strictErr (sem sm (.fn1 f a) c) ++ lzErr (lz sm (.fn1 f a) c) ++ codes sm a c ++ checkErr (lz sm a c) (argCheck1 f)
   | .fn2 f a b, c =>
-    strictErr (sem sm (.fn2 f a b) c) ++ codes sm a c ++ codes sm b c ++ checkErr (lz sm b c) (argCheck2 f)
+    strictErr (sem sm (.fn2 f a b) c) ++ lzErr (lz sm (.fn2 f a b) c) ++ codes sm a c ++ codes sm b c ++ checkErr (lz sm b c) (argCheck2 f)
   | .fn3 f a b d, c =>
-    strictErr (sem sm (.fn3 f a b d) c) ++ codes sm a c ++ codes sm b c ++ codes sm d c ++
+    strictErr (sem sm (.fn3 f a b d) c) ++ lzErr (lz sm (.fn3 f a b d) c) ++ codes sm a c ++ codes sm b c ++ codes sm d c ++
       checkErr (lz sm b c) (argCheck3 f) ++
       (match f with | .subseq => checkErr (lz sm d c) (argCheck3 f) | .insertBefore => [])
   | .cmp op a b, c =>
-    strictErr (sem sm (.cmp op a b) c) ++ codes sm a c ++ codes sm b c ++
+    strictErr (sem sm (.cmp op a b) c) ++ lzErr (lz sm (.cmp op a b) c) ++ codes sm a c ++ codes sm b c ++
       checkErr (lz sm a c) (fun v => atMostOne (v.map (atomized c.doc))) ++
       checkErr (lz sm b c) (fun v => atMostOne (v.map (atomized c.doc)))
   -- XPath 3.1 §3.8: the order in which the operands of `and` / `or` are evaluated is
   -- implementation-dependent: an error of the right operand may be reported in any case
   | .andE a b, c =>
-    strictErr (sem sm (.andE a b) c) ++ codes sm a c ++ codes sm b c ++
+    strictErr (sem sm (.andE a b) c) ++ lzErr (lz sm (.andE a b) c) ++ codes sm a c ++ codes sm b c ++
       strictErr ((sem sm b c).bind fun v => (ebv v).map fun _ => []) ++
       checkErr (lz sm a c) ebv ++ checkErr (lz sm b c) ebv
   | .orE a b, c =>
-    strictErr (sem sm (.orE a b) c) ++ codes sm a c ++ codes sm b c ++
+    strictErr (sem sm (.orE a b) c) ++ lzErr (lz sm (.orE a b) c) ++ codes sm a c ++ codes sm b c ++
       strictErr ((sem sm b c).bind fun v => (ebv v).map fun _ => []) ++
       checkErr (lz sm a c) ebv ++ checkErr (lz sm b c) ebv
   | .arith op a b, c =>
-    strictErr (sem sm (.arith op a b) c) ++ codes sm a c ++ codes sm b c ++
+    strictErr (sem sm (.arith op a b) c) ++ lzErr (lz sm (.arith op a b) c) ++ codes sm a c ++ codes sm b c ++
       checkErr (lz sm a c) numericOperand ++ checkErr (lz sm b c) numericOperand
   -- §3.10: only the selected branch may raise (the test may be decided lazily)
   | .ifE t a b, c =>
-    strictErr (sem sm (.ifE t a b) c) ++ codes sm t c ++ checkErr (lz sm t c) ebv ++
+    strictErr (sem sm (.ifE t a b) c) ++ lzErr (lz sm (.ifE t a b) c) ++ codes sm t c ++ checkErr (lz sm t c) ebv ++
       (match ebvL (lz sm t c) with
        | .ok true => codes sm a c
        | .ok false => codes sm b c
